@@ -1,11 +1,16 @@
 #!/usr/bin/env bash
-# tools/seedtest.sh <seed-dir> <property> : confirm a seeded defect and run the check against it
+# tools/seedtest.sh <seed-dir> <property> : confirm a seeded defect and run the check against it.
+# The check's evidence record of the broken tree goes to a scratch directory (VERIF_EVIDENCE_DIR),
+# never to /verif/evidence, which only ever holds records of runs on the unchanged tree.
 set -u
 seed="$1"; pid="$2"
 cd /repo || exit 3
 git diff --quiet || { echo "repo dirty"; exit 3; }
+scratch="$(mktemp -d /var/tmp/verif_seed.XXXXXX)"
+export VERIF_EVIDENCE_DIR="$scratch"
 echo "== demo on unchanged tree"; (cd /tmp && PYTHONPATH=/repo /venv/bin/python "$seed/demo.py" >/dev/null 2>&1; echo "exit=$?")
-git apply "$seed/patch.diff" || { echo "patch does not apply"; exit 3; }
+git apply "$seed/patch.diff" || { echo "patch does not apply"; rm -rf "$scratch"; exit 3; }
 echo "== demo with the change"; (cd /tmp && PYTHONPATH=/repo /venv/bin/python "$seed/demo.py" >/dev/null 2>&1; echo "exit=$?")
 echo "== check"; (cd /verif && bin/vcheck "$pid" 2>&1 | grep -E "VIOLATION|UNDECIDED|CHECKER|KNOWN|obligations" | cut -c1-250; echo "check-exit=${PIPESTATUS[0]}")
 git checkout -- .
+rm -rf "$scratch"
